@@ -84,7 +84,7 @@ def const_target_job(lo, hi):
     res = env.Result()
     for pre in PRES[lo:hi]:
         pess = sum(int(p.split()[1]) if p.startswith('align') else 2 if p.startswith('dh') else 8 if p.startswith('li') else 4 for p in pre)
-        for edge in (1 << 20, -(1 << 20), 2048, -2048, 256, -256, 0):
+        for edge in (1 << 20, -(1 << 20), 2048, -2048, 256, -256, 0, 32, -32, 128):
             heavy = len(pre) > 20
             ds = list(((-8, 0, 8) if abs(edge) > 256 else (-40, 0, 40)) if heavy else (range(-12, 14, 2) if abs(edge) > 256 else range(-48, 50, 4)))
             if edge > 256:
@@ -94,8 +94,11 @@ def const_target_job(lo, hi):
                 K = pess + edge + d
                 if K < 0:
                     continue
-                for name in ('call', 'tail', 'j', 'jal', 'beqz x8,', 'bne x9, x0,'):
-                    src = 'KTARGET = %d\n' % K + ''.join(p + '\n' for p in pre) + '%s KTARGET\n' % name
+                names = ('call', 'tail', 'j', 'jal', 'beqz x8,', 'bne x9, x0,') if abs(edge) > 128 or edge == 0 else \
+                    ('addi x8, x8, %lo(%offset(@))', 'addi x9, x0, %offset(@)', 'lw x9, x8, %lo(%offset(@))', 'andi x8, x8, %offset(@)')
+                for name in names:
+                    last = name.replace('@', 'KTARGET') if '@' in name else '%s KTARGET' % name
+                    src = 'KTARGET = %d\n' % K + ''.join(p + '\n' for p in pre) + last + '\n'
                     res.evaluations += 1
                     u = progcheck.assemble(a, src, False)
                     c = progcheck.assemble(a, src, True)
@@ -104,7 +107,7 @@ def const_target_job(lo, hi):
                                  {'kind': 'text', 'source': src})
                     elif u[0] == 'ok' and c[0] != 'ok' and name in ('call', 'tail'):
                         res.fail('only_with_c:const_target:%s' % name, '%r assembles without -c and is refused with it: %s' % (src, str(c[1])[-160:]), {'kind': 'text', 'source': src})
-                    elif u[0] == 'ok' and c[0] != 'ok' and ('8-bit MO2' in str(c[1]) or '11-bit MO2' in str(c[1])):
+                    elif u[0] == 'ok' and c[0] != 'ok' and any(t in str(c[1]) for t in ('8-bit MO2', '11-bit MO2', '6-bit', '5-bit', 'MO4')):
                         # refused by the range check of c.beqz / c.bnez / c.j / c.jal - forms the COMPRESSOR chose for a 32-bit source line
                         res.fail('only_with_c:const_target:compressed_form', '%s ... %r assembles without -c; with -c the compressor picks a 16-bit form whose range the final offset '
                                  'exceeds: %s' % (src[:60], src[-30:], str(c[1])[-120:]), {'kind': 'text', 'source': src})
